@@ -355,13 +355,40 @@ Proof.
     destruct (u_hdr u) as [[]|]; try reflexivity; destruct (u_proof u); reflexivity.
 Qed.
 
+Lemma list_eqb_eq {A} (eqb : A -> A -> bool) (Heq : forall a b, eqb a b = true <-> a = b) :
+  forall l l', list_eqb eqb l l' = true <-> l = l'.
+Proof.
+  induction l as [|x l IH]; intros [|y l']; cbn [list_eqb]; try (split; [discriminate | intros H; discriminate H]).
+  - split; reflexivity.
+  - rewrite andb_true_iff, Heq, IH. split; [intros [-> ->]; reflexivity | intros [= -> ->]; split; reflexivity].
+Qed.
+
+Lemma tok_eqb_eq a b : tok_eqb a b = true <-> a = b.
+Proof.
+  destruct a, b; cbn; try (split; [discriminate | intros H; discriminate H]);
+    rewrite N.eqb_eq; (split; [intros ->; reflexivity | intros [= ->]; reflexivity]).
+Qed.
+
+Lemma pair_eqb_eq a b : pair_eqb a b = true <-> a = b.
+Proof.
+  destruct a as [x y], b as [x' y']. unfold pair_eqb. cbn [fst snd].
+  rewrite andb_true_iff, !N.eqb_eq. split; [intros [-> ->]; reflexivity | intros [= -> ->]; split; reflexivity].
+Qed.
+
+Lemma tx_sig_eqb_eq a b : tx_sig_eqb a b = true <-> a = b.
+Proof.
+  destruct a as [|s m], b as [|s' m']; cbn; try (split; [discriminate | intros H; discriminate H]).
+  - split; reflexivity.
+  - rewrite andb_true_iff, N.eqb_eq, (list_eqb_eq tok_eqb tok_eqb_eq).
+    split; [intros [-> ->]; reflexivity | intros [= -> ->]; split; reflexivity].
+Qed.
+
 Lemma tx_eqb_eq a b : tx_eqb a b = true <-> a = b.
 Proof.
-  destruct a as [o c s], b as [o' c' s']. unfold tx_eqb. cbn [t_owner t_content t_sig].
-  rewrite !andb_true_iff, !N.eqb_eq. split.
-  - intros [[-> ->] Hs]. f_equal. destruct s, s'; cbn in Hs; try discriminate; [reflexivity|].
-    apply andb_true_iff in Hs as [H1 H2]. apply N.eqb_eq in H1, H2. subst. reflexivity.
-  - intros [= -> -> ->]. repeat split. destruct s'; cbn; [reflexivity|]. rewrite !N.eqb_refl. reflexivity.
+  destruct a as [o ps c outs s], b as [o' ps' c' outs' s']. unfold tx_eqb.
+  cbn [t_owner t_parents t_content t_outputs t_sig].
+  rewrite !andb_true_iff, !N.eqb_eq, (list_eqb_eq N.eqb N.eqb_eq), (list_eqb_eq pair_eqb pair_eqb_eq), tx_sig_eqb_eq.
+  split; [intros [[[[-> ->] ->] ->] ->]; reflexivity | intros [= -> -> -> -> ->]; repeat split].
 Qed.
 
 Lemma mem_in {A} (eqb : A -> A -> bool) (Heq : forall a b, eqb a b = true <-> a = b) x l :
@@ -794,7 +821,8 @@ Proof.
 Qed.
 
 (* the same shape loses a transaction: two replicated sets read the stored set before either writes *)
-Definition f12_tx (c : N) : tx := {| t_owner := 1; t_content := c; t_sig := TSBy 1 c |}.
+Definition f12_tx (c : N) : tx :=
+  {| t_owner := 1; t_parents := []; t_content := c; t_outputs := []; t_sig := TSBy 1 (tx_msg 1 [] c []) |}.
 Definition f12_tx_delivery (c : N) : delivery :=
   {| d_path := PRepl;
      d_up := {| u_key := owner_key 1; u_hdr := kind_of_tag 2; u_proof := None; u_body := BTxs [f12_tx c];
@@ -868,4 +896,70 @@ Lemma register_overwritten_before_ack_refuted_lemma :
    match ds with d0 :: _ => ds_phase d0 = DDone /\ ds_outbox d0 = [] /\ get st (reg_key 1 1) = Some (SReg (win_reg [win_op 2]))
                             /\ listed st (reg_key 1 1) = false
             | [] => False end).
+Proof. vm_compute. repeat split. Qed.
+
+
+(* ------------------------------------------------------------------ what the owner's signature covers *)
+
+Lemma flags_tx_signs :
+  Consts.pv_tx_signs_owner = true /\ Consts.pv_tx_signs_parents = true /\ Consts.pv_tx_signs_content = true /\
+  Consts.pv_tx_signs_output_keys = true /\ Consts.pv_tx_signs_output_contents = true.
+Proof. repeat split. Qed.
+
+Lemma map_tpk_sep ps : forall ps' n r r',
+  map TPk ps ++ TLit n :: r = map TPk ps' ++ TLit n :: r' -> ps = ps' /\ r = r'.
+Proof.
+  induction ps as [|p ps IH]; intros [|p' ps'] n r r' H; cbn [map app] in H.
+  - injection H as ->. split; reflexivity.
+  - discriminate H.
+  - discriminate H.
+  - injection H as -> H. destruct (IH _ _ _ _ H) as [-> ->]. split; reflexivity.
+Qed.
+
+Lemma outputs_tokens_inj outs : forall outs',
+  flat_map (fun kc : owner * N => [TPk (fst kc)] ++ [TCont (snd kc)]) outs =
+  flat_map (fun kc : owner * N => [TPk (fst kc)] ++ [TCont (snd kc)]) outs' -> outs = outs'.
+Proof.
+  induction outs as [|[k c] outs IH]; intros [|[k' c'] outs'] H; cbn [flat_map app fst snd] in H;
+    try discriminate H; [reflexivity|].
+  injection H as -> -> H. rewrite (IH _ H). reflexivity.
+Qed.
+
+(* the signed message determines every field: owner, each parent, content, each output's key and
+   each output's content (holds because the source's bytes_to_sign covers all five, see flags_tx_signs) *)
+Lemma tx_signed_bytes_injective_lemma : forall o ps c outs o' ps' c' outs',
+  tx_msg o ps c outs = tx_msg o' ps' c' outs' -> o = o' /\ ps = ps' /\ c = c' /\ outs = outs'.
+Proof.
+  intros o ps c outs o' ps' c' outs'. unfold tx_msg.
+  destruct flags_tx_signs as (-> & -> & -> & -> & ->). cbn [app]. intros H.
+  injection H as -> H. apply map_tpk_sep in H as [-> H]. injection H as -> H.
+  apply outputs_tokens_inj in H. subst. repeat split.
+Qed.
+
+(* hence a transaction that verifies carries exactly the fields its owner signed: two transactions
+   with the same signature that both verify are the same transaction -- altering any field (owner,
+   a parent, the content, an output's key or an output's content) after signing makes verify fail *)
+Lemma tampered_tx_invalid_lemma : forall t t',
+  tx_valid t = true -> tx_valid t' = true -> t_sig t' = t_sig t -> t' = t.
+Proof.
+  intros [o ps c outs s] [o' ps' c' outs' s'] Hv Hv' Hs. cbn [t_sig] in Hs. subst s'.
+  unfold tx_valid in Hv, Hv'. cbn [t_owner t_parents t_content t_outputs t_sig] in Hv, Hv'.
+  destruct s as [|sg m]; [discriminate|].
+  apply andb_true_iff in Hv as [_ Hm]. apply andb_true_iff in Hv' as [_ Hm'].
+  apply (list_eqb_eq tok_eqb tok_eqb_eq) in Hm, Hm'. rewrite Hm in Hm'.
+  apply tx_signed_bytes_injective_lemma in Hm' as (-> & -> & -> & ->). reflexivity.
+Qed.
+
+Definition ex_tx2 : tx :=
+  {| t_owner := 1; t_parents := [2; 3]; t_content := 7; t_outputs := [(4, 8); (5, 9)];
+     t_sig := TSBy 1 (tx_msg 1 [2; 3] 7 [(4, 8); (5, 9)]) |}.
+(* non-vacuity: a genuine transaction with parents and outputs verifies; rewriting the content of one
+   output (or any other field) after signing does not *)
+Example ex_tampered_output_content :
+  tx_valid ex_tx2 = true /\
+  tx_valid {| t_owner := 1; t_parents := [2; 3]; t_content := 7; t_outputs := [(4, 8); (5, 10)]; t_sig := t_sig ex_tx2 |} = false /\
+  tx_valid {| t_owner := 1; t_parents := [2; 3]; t_content := 7; t_outputs := [(6, 8); (5, 9)]; t_sig := t_sig ex_tx2 |} = false /\
+  tx_valid {| t_owner := 1; t_parents := [2]; t_content := 7; t_outputs := [(4, 8); (5, 9)]; t_sig := t_sig ex_tx2 |} = false /\
+  tx_valid {| t_owner := 1; t_parents := [2; 3]; t_content := 6; t_outputs := [(4, 8); (5, 9)]; t_sig := t_sig ex_tx2 |} = false /\
+  tx_valid {| t_owner := 2; t_parents := [2; 3]; t_content := 7; t_outputs := [(4, 8); (5, 9)]; t_sig := t_sig ex_tx2 |} = false.
 Proof. vm_compute. repeat split. Qed.
